@@ -27,11 +27,19 @@ type Case struct {
 	// i is the kind of member i (0 node, 1 way clockwise, 2 way counter-clockwise).
 	Base int `json:"base"`
 	Upd  []U `json:"updates"`
+	// Ring: the last child is a second reference to the first child (a closed
+	// way: same node id; a relation listing one member twice). Updates name
+	// children by index, so the two references stay independent.
+	Ring bool `json:"ring,omitempty"`
 }
 
 func (c Case) String() string {
 	var sb strings.Builder
-	fmt.Fprintf(&sb, "%s n=%d base=%d updates=[", c.Kind, c.N, c.Base)
+	ring := ""
+	if c.Ring {
+		ring = " ring"
+	}
+	fmt.Fprintf(&sb, "%s n=%d base=%d%s updates=[", c.Kind, c.N, c.Base, ring)
 	for p, u := range c.Upd {
 		if p > 0 {
 			sb.WriteString(" ")
@@ -63,6 +71,10 @@ func (c Case) hash() uint64 {
 	x = x<<2 | uint64(c.N)
 	x <<= 1
 	if c.Kind == "relation" {
+		x |= 1
+	}
+	x <<= 1
+	if c.Ring {
 		x |= 1
 	}
 	// splitmix64 finaliser: a bijection on 64 bits
